@@ -1,20 +1,25 @@
 package rules
 
+import "golang.org/x/tools/go/ssa"
+
 func init() {
 	register(&Spec{
 		ID: "C03",
-		Explanation: "Decides structural necessary conditions of the route-table lifecycle: R1 every mutation of a child list is followed by a rebuild of that node's first-byte index on every successful path (interprocedural, helpers summarised as dirty/cleaning); R2 the index builder resets the map before refilling and inserts literal children only; R3 (= C04.R1) the method summary Routes() reads is rebuilt after every handler-map mutation; R4 the clean and routes walks visit every child (no early exit); R5 Remove(pattern) without methods drops the whole handler map; R6 the Remove/Clean facades of Router, Prefix and Resource are pure forwarders (subset of C19). " +
+		Explanation: "Decides structural necessary conditions of the route-table lifecycle: R1 every mutation of a child list is followed by a rebuild of that node's first-byte index on every successful path (interprocedural, helpers summarised as dirty/cleaning); R2 the index builder resets the map before refilling and inserts literal children only; R3 (= C04.R1) the method summary Routes() reads is rebuilt after every handler-map mutation; R4 the clean and routes walks visit every child (no early exit); R8 node.clean tests every child against the prefix; R9 (= C02.R3) every change of a child list that is not an order-preserving removal (append, swap-remove, …) is followed by the stable sort by kind priority, so that removals never change which live candidate wins; R5 Remove(pattern) without methods drops the whole handler map; R6 the Remove/Clean facades of Router, Prefix and Resource are pure forwarders (subset of C19). " +
 			"Not decided: that every live route is still served and that the winner is the priority winner for all histories (needs an executable reference model — a different technique).",
 		Assumptions: commonAssumptions,
 		Run: func(c *Ctx) {
 			ruleIndexRebuilt(c, "R1")
 			ruleIndexRebuildComplete(c, "R2")
 			ruleSummaryRebuilt(c, "R3")
+			ruleCleanTestsEveryChild(c, "R8")
 			ruleExhaustiveWalks(c, "R4", []string{"tree.(*node).clean", "tree.(*node).routes"}, "Clean removes every route under the prefix and Routes() lists every live pattern: the walks visit every child")
 			ruleRemoveAllDropsEverything(c, "R5")
 			ruleFacadeRemovals(c, "R6")
 			ruleRoutesLiveness(c, "R7")
 			ruleSummaryIsNotLiveness(c, "R7b")
+			ruleSortAfterInsert(c, "R9")
+			ruleSearchTriesEverySibling(c, "R10", []*ssa.Function{c.A.TreeRemove}, "a removed pattern is gone: the lookup of the node to remove tries every sibling")
 		},
 	})
 }
